@@ -76,4 +76,25 @@ static opt_SectorBuffer DataAccess_read_block(struct DataAccess *obj, unsigned l
   mon_read_result(obj, r.has);
   return r;
 }
+
+/* ---- FileAccess::read(pos, len) -> std::vector<byte>: at most len bytes (short at EOF) --------- */
+struct bytevec { size_t n; byte d[SECTOR_BYTES]; };
+struct FileAccess;
+static unsigned long g_fa_calls, g_fa_last_pos, g_fa_last_len;
+static struct bytevec g_fa_last;
+static struct bytevec FileAccess_read(struct FileAccess *f, unsigned long pos, unsigned long len)
+{
+  struct bytevec r;              /* contents unconstrained */
+  (void)f;
+  __CPROVER_assert(len <= SECTOR_BYTES, "model: FileAccess::read of at most one sector here");
+  __CPROVER_assume(r.n <= len);
+  g_fa_calls++; g_fa_last_pos = pos; g_fa_last_len = len; g_fa_last = r;
+  return r;
+}
+static void bytevec_copy(const struct bytevec *v, byte *dst)    /* std::copy(v.begin(), v.end(), dst) */
+{
+  size_t i;
+  for (i = 0; i < SECTOR_BYTES; ++i)
+    if (i < v->n) dst[i] = v->d[i];
+}
 #endif
